@@ -443,7 +443,8 @@ pub fn run_c12(tier: Tier) -> i32 {
         // literals, many rules, wide alternations: their state machines have shapes — long chains
         // of inlined states, hundreds of arms — that small definitions never produce)
         let take = i % step == 0 || specs[i].0 == "scaling";
-        if take && first[i].0.is_ok() {
+        let small_enough = matches!(first[i].0, Expand::Ok { len, .. } if len <= 6_000_000);
+        if take && small_enough {
             let mut body = specs[i].1.print_macro("Lexer");
             // the glue is not needed to decide "compiles"; switch kinds need rule_of
             body = specs[i].1.print_module_body("Lexer");
